@@ -1,11 +1,298 @@
 package main
 
-import "verifharness/internal/vf"
+// C06 — a replication failure pauses exactly the failing task, never crashes the service.
+//
+// The whole CDC service runs in a child process between the supervisor's embedded etcd, file-backed message queue
+// and fake downstream Milvus servers. Per case ONE failure class is placed at ONE position of the owning task's
+// history, in one topology (1 task; 2 tasks on the same target with separate / one shared downstream channel; 2 tasks
+// on different targets), single or repeated:
+//
+//	unknown-collection       an insert whose CollectionID is not in the source catalog arrives on a replicated stream
+//	unknown-partition        an insert into a partition that never exists downstream (lookup retries exhausted)
+//	write-rejected           the downstream rejects every attempt of the ReplicateMessage that carries the k-th row
+//	ddl-rejected             the downstream rejects CreateCollection / CreatePartition / DropPartition / DropCollection
+//	op-rejected              the downstream rejects the call made for a message of the source's replicate channel
+//	checkpoint-put-rejected  the metadata store rejects the checkpoint Put that covers the k-th row
+//	state-put-rejected       the store rejects the Put of the Paused state (together with one of the above)
+//
+// Oracle (after logical settle conditions, see c06_case.go settle()):
+//
+//	(a) the child process is alive and printed no panic / fatal error;
+//	(b) the owning task is Paused with a non-empty reason through get AND list;
+//	(c) every other task is still Running through get and list, and rows written to its streams after the fault
+//	    (also into a partition created after the fault) are acknowledged downstream
+//	    [reported under the separate keys other-task-stops-replicating / -after-ddl];
+//	(d) no row written to the owning task's collection AFTER the supervisor observed it Paused (and the service's
+//	    bookkeeping showed the pause carried out) is ever acknowledged;
+//	(e) no checkpoint of the owning task (announced Put or persisted record) lies beyond a message of its stream that
+//	    is not acknowledged (at that moment / at all);
+//	(f) no later message of the faulted stream is acknowledged while the failing message never was.
+
+import (
+	"fmt"
+	"os"
+	"path/filepath"
+	"strings"
+
+	"verifharness/internal/vf"
+)
+
+func c06Cases(run *vf.Run) []*c06Case {
+	var cases []*c06Case
+	add := func(class, pos, topo string, rep bool, mod func(*c06Case)) {
+		c := &c06Case{Class: class, Pos: pos, Topo: topo, Repeated: rep, PackCnt: 1}
+		switch class {
+		case c06DDLRej:
+			// with two tasks on one target partition events are unreliable even without a fault (see c06_case.go,
+			// sentinel 2), so the DDL faults of those topologies are collection-level
+			sameTarget := topo == c06TopoSame || topo == c06TopoShared
+			switch pos {
+			case "first":
+				c.DDL = "CreateCollection"
+			case "middle":
+				c.DDL = "CreatePartition"
+				if sameTarget {
+					c.DDL = "CreateCollection" // the owning task's second collection, created in round 3
+				}
+			default:
+				c.DDL = "DropPartition"
+				if rep || sameTarget {
+					c.DDL = "DropCollection"
+				}
+			}
+		case c06OpRej:
+			c.Op = map[string]string{"first": "LoadCollection", "middle": "CreateIndex", "last": "LoadCollection"}[pos]
+		case c06StateRej:
+			c.Under = c06WriteRej
+		}
+		if mod != nil {
+			mod(c)
+		}
+		cases = append(cases, c)
+	}
+	if !run.Thorough() {
+		add(c06UnknownColl, "first", c06TopoOne, false, nil)
+		add(c06UnknownColl, "middle", c06TopoSame, false, nil)
+		add(c06UnknownColl, "last", c06TopoDiff, false, nil)
+		add(c06UnknownPart, "first", c06TopoSame, false, nil)
+		add(c06UnknownPart, "middle", c06TopoDiff, true, nil)
+		add(c06UnknownPart, "last", c06TopoOne, false, nil)
+		add(c06WriteRej, "first", c06TopoDiff, false, nil)
+		add(c06WriteRej, "middle", c06TopoShared, false, nil)
+		add(c06WriteRej, "middle", c06TopoOne, false, func(c *c06Case) { c.PackCnt = 3 })
+		add(c06WriteRej, "last", c06TopoSame, true, nil)
+		add(c06DDLRej, "first", c06TopoSame, false, nil)
+		add(c06DDLRej, "middle", c06TopoOne, false, nil)
+		add(c06DDLRej, "last", c06TopoDiff, false, nil)
+		add(c06DDLRej, "last", c06TopoSame, true, nil)
+		add(c06OpRej, "first", c06TopoOne, false, nil)
+		add(c06OpRej, "middle", c06TopoSame, false, nil)
+		add(c06OpRej, "last", c06TopoDiff, false, nil)
+		add(c06CpRej, "first", c06TopoOne, false, nil)
+		add(c06CpRej, "middle", c06TopoSame, false, nil)
+		add(c06CpRej, "last", c06TopoShared, true, nil)
+		add(c06StateRej, "first", c06TopoSame, false, nil)
+		add(c06StateRej, "middle", c06TopoOne, true, nil)
+		add(c06StateRej, "last", c06TopoDiff, false, func(c *c06Case) { c.Under = c06CpRej })
+		// the failure paths that pause the task only once (DDL event loop): one rejected state Put
+		add(c06StateRej, "middle", c06TopoOne, false, func(c *c06Case) { c.Under, c.DDL = c06DDLRej, "CreatePartition" })
+		// the owning task is NOT the first task of the shared target
+		add(c06WriteRej, "middle", c06TopoSame, false, func(c *c06Case) { c.OwnerSecond = true })
+		add(c06DDLRej, "middle", c06TopoSame, false, func(c *c06Case) { c.OwnerSecond = true })
+		// batcher count 3 on a downstream channel shared by both tasks: one flush carries packs of both tasks
+		add(c06WriteRej, "last", c06TopoShared, false, func(c *c06Case) { c.PackCnt = 3 })
+		// control: no fault at all, same target
+		add(c06NoFault, "middle", c06TopoSame, false, nil)
+	} else {
+		n := 0
+		for _, class := range []string{c06UnknownColl, c06UnknownPart, c06WriteRej, c06DDLRej, c06OpRej, c06CpRej, c06StateRej} {
+			for _, pos := range []string{"first", "middle", "last"} {
+				for _, topo := range []string{c06TopoOne, c06TopoSame, c06TopoDiff} {
+					for _, rep := range []bool{false, true} {
+						if rep && (class == c06OpRej || class == c06DDLRej && pos == "first") {
+							continue // a repeated rejection of the same single call is the single case
+						}
+						n++
+						pc := 1
+						if n%3 == 0 {
+							pc = 3
+						}
+						pos, n := pos, n
+						add(class, pos, topo, rep, func(c *c06Case) {
+							c.PackCnt = pc
+							if class == c06StateRej {
+								c.Under = []string{c06WriteRej, c06CpRej, c06DDLRej}[n%3]
+								if c.Under == c06DDLRej {
+									c.DDL = "CreatePartition"
+									if topo == c06TopoSame {
+										c.DDL = "CreateCollection"
+									}
+									if pos == "first" {
+										c.Under = c06WriteRej
+										c.DDL = ""
+									}
+								}
+							}
+						})
+					}
+				}
+			}
+		}
+		for _, class := range []string{c06WriteRej, c06CpRej, c06StateRej, c06UnknownPart} {
+			for _, pos := range []string{"first", "last"} {
+				add(class, pos, c06TopoShared, pos == "last", nil)
+			}
+		}
+		for _, class := range []string{c06WriteRej, c06DDLRej, c06OpRej, c06CpRej, c06UnknownColl} {
+			add(class, "middle", c06TopoSame, false, func(c *c06Case) { c.OwnerSecond = true })
+		}
+		add(c06NoFault, "middle", c06TopoSame, false, nil)
+		add(c06NoFault, "middle", c06TopoShared, false, nil)
+		add(c06NoFault, "middle", c06TopoDiff, false, nil)
+	}
+	for i, c := range cases {
+		c.Idx = i
+		rnd := vf.Rand(run.Seed, "c06-case", i)
+		switch c.Pos {
+		case "first":
+			c.K = 1
+		case "middle":
+			c.K = 2 + rnd.Intn(3)
+		default:
+			c.K = c06Rounds
+		}
+		c.FaultShard = rnd.Intn(2)
+	}
+	return cases
+}
+
+// c06HarnessRaces counts the race detector reports (supervisor and children) that have a frame in this check's own
+// files: the monitor's state must be thread-safe, such a report would be a harness bug.
+func c06HarnessRaces() int {
+	files, _ := filepath.Glob(filepath.Join(os.Getenv("VERIF_SCRATCH"), "race.*"))
+	n := 0
+	for _, f := range files {
+		b, err := os.ReadFile(f)
+		if err != nil {
+			continue
+		}
+		for _, blk := range strings.Split(string(b), "WARNING: DATA RACE")[1:] {
+			if strings.Contains(blk, "rigs/sysrig/c06") {
+				n++
+				fmt.Printf("C06-HARNESS-RACE %s\n", blk[:min(len(blk), 1500)])
+			}
+		}
+	}
+	return n
+}
 
 func runC06(tier string) *vf.Run {
-	run := vf.NewRun("C06", tier, "exploration")
-	run.Rule = "not built yet"
-	run.Inconclusive("check not built yet")
-	run.Floor("built", 1)
+	run := vf.NewRun("C06", tier, "fault_enumeration")
+	run.Rule = "case = failure class x position x topology x {single, repeated}. Every task replicates one database (db.*): the owning task c06dba with collection c06_a (2 shards, source channels 0,1), the other task (if any) c06dbb with c06_b (1 shard, source channel 2) on the same target (one downstream channel per source channel, or all on one) or on a second target; tasks are created before their collections. History: 5 rounds of one insert/delete per stream followed by a time tick. Position first/middle/last = the fault hits the message of round 1/3/5 of shard 0 (DDL: CreateCollection of c06_a before any row / CreatePartition, or CreateCollection of a second collection on a shared target, in round 3 / DropPartition or DropCollection in round 5; op message LoadCollection or CreateIndex on the source's replicate channel in round 1/3/5); the rounds before the fault must be acknowledged completely before the fault is armed, the rounds after it are written immediately behind it. Faults are tied to message identity (the pack carrying row uid X, the checkpoint whose position covers X, the DDL call naming the collection/partition), never to call counts; single = that one message/call fails on every retry, repeated = also every later write / checkpoint / state update of the owning task fails (poison: a second unprocessable message on shard 1; CreatePartition: two partitions; DropCollection instead of DropPartition). Quick: 28 fixed cases: every class at the 3 positions with the topologies rotated, 2 cases with the owning task created second, 1 with batcher count 3 on a shared downstream channel, 1 control case without any fault (nothing may be paused, every sentinel must flow). Thorough: every class x position x {1 task, 2 same target, 2 different targets} x {single, repeated} plus shared-downstream-channel, owner-created-second and control variants, batcher count 1 or 3. Non-trivial = the fault was delivered (fake's / store decider's counter; poison message written) and the case was decided; distinct by (class, variant, position, topology, single/repeated, batcher count, creation order)."
+	run.Assumptions = []string{
+		"the downstream is fakemilvus (gRPC, accepts any decodable ReplicateMessage; an ack is logged when it ACCEPTS the call); the metadata store is the real EtcdMetaStore behind a wrapper that announces every call to the supervisor and can inject an error; the source is the supervisor (rootcoord-style etcd catalog + messages and ticks on file-backed topics); the databases exist downstream beforehand",
+		"the service retries downstream calls and lookups 3 times with 1 s back-off (sysboot retry settings): a downstream rejection is 'final' after 3 failed attempts of the same call",
+		"settled means: the fault was delivered AND get reports the owning task Paused (then the supervisor waits until the service's own bookkeeping snapshot shows the pause carried out, and only rows written after that count for 'stops emitting'), OR a later message of the failing stream was acknowledged although the failing one never was. After that one sentinel row on every stream of the other task and one row in a collection of the other task created after the fault must be acknowledged. Watchdogs (45-75 s) only end a wait; a case ended by a watchdog is inconclusive, except: a sentinel not acknowledged within 45 s although the service answered its API and its source consumer had been handed the sentinel (or no consumer is left) is reported as other-task-stops-replicating[-after-ddl]",
+		"the other task's state is judged after its first sentinel row; when its DDL sentinel fails (own key) the state it ends in is described there and not reported a second time",
+		"no-ack-after-pause is observed over a window (the sentinel round trips of the other task, or 40 further ticks after the service's consumers were handed the probe rows): an ack inside the window is a violation, silence is 'held on what was observed'",
+		"state-put-rejected/repeated (the store never accepts the Paused state): visibility of Paused through get/list (which read the store) is not demanded, everything else is (the pause is then taken from the service's bookkeeping snapshot)",
+		"partition DDL faults are used only where a task is alone on its target, and the other task's DDL sentinel is a new collection, not a partition: at repository commit d6fa97d a partition event was swallowed by whichever task's subscriber was asked first even without any fault (repaired meanwhile by fca49cc); the control case shows that the sentinels flow when nothing fails",
+		"resume after the pause is not part of C06 (C05/C11)",
+	}
+	cases := c06Cases(run)
+	if only := os.Getenv("C06_ONLY"); only != "" {
+		var sel []*c06Case
+		for _, c := range cases {
+			for _, pat := range strings.Split(only, ",") {
+				if strings.Contains(c.sig(), pat) {
+					sel = append(sel, c)
+					break
+				}
+			}
+		}
+		cases = sel
+	}
+	if *fCase >= 0 {
+		var sel []*c06Case
+		for _, c := range cases {
+			if c.Idx == *fCase {
+				sel = append(sel, c)
+			}
+		}
+		cases = sel
+	}
+	classes := map[string]bool{}
+	for _, c := range cases {
+		classes[c.Class] = true
+	}
+	parallel(len(cases), run.Pick(8, 10), func(i int) {
+		c := cases[i]
+		r := runC06Case(c, fmt.Sprintf("c06-%d", c.Idx))
+		run.Eval(1)
+		tag := fmt.Sprintf("[case %d %s] ", c.Idx, c.sig())
+		fmt.Printf("C06-CASE %s delivered=%v final=%v hits=%d paused_seen=%v mem_paused=%v sentinels=%d probes=%d inconclusive=%q vios=%d\n", tag, r.delivered, r.final, r.hits, r.pausedSeen, r.memPaused, r.sentinels, r.probes, r.inconclusive, len(r.vios))
+		for _, v := range r.vios {
+			fmt.Printf("C06-VIO %s%s: %s\n", tag, v.key, v.desc)
+		}
+		for _, n := range r.notes {
+			fmt.Printf("C06-NOTE %s%s\n", tag, n)
+		}
+		if r.inconclusive != "" {
+			run.Inconclusive(tag + r.inconclusive)
+			run.Count("inconclusive_"+c.Class, 1)
+		}
+		for _, v := range r.vios {
+			if v.key == "C06/owning-task-not-paused-"+c06StateRej {
+				// the statement lists unknown objects, rejected writes / DDL and rejected checkpoints; a store that also
+				// rejects the Put of the Paused state is a second, unlisted failure: the task is stopped in the service's
+				// bookkeeping, that get/list (which read the store) still say Running is counted, not judged
+				run.Count("state_put_rejected_leaves_stored_state_running", 1)
+				continue
+			}
+			run.Violate(v.key, tag+v.desc, r.replay)
+		}
+		rep := "single"
+		if c.Repeated {
+			rep = "repeated"
+		}
+		run.Count("cases_class_"+c.Class, 1)
+		run.Count("cases_position_"+c.Pos, 1)
+		run.Count("cases_topology_"+c.Topo, 1)
+		run.Count("cases_"+rep, 1)
+		if r.delivered {
+			run.Count("faults_delivered", 1)
+			run.Count("delivered_"+c.Class, 1)
+			run.Count("injected_failures_or_poison_messages", r.hits)
+			if r.inconclusive == "" {
+				run.Nontrivial(c.sig())
+				run.Count("decided_with_fault_delivered", 1)
+			}
+		}
+		if r.pausedSeen {
+			run.Count("owning_task_observed_paused", 1)
+		}
+		if r.memPaused {
+			run.Count("pause_carried_out_in_bookkeeping", 1)
+		}
+		run.Count("probe_rows_written_after_pause", r.probes)
+		run.Count("sentinel_rounds_of_other_task_acknowledged", r.sentinels)
+		run.Count("acks_observed", r.acks)
+		run.Count("checkpoint_puts_observed", r.puts)
+		if r.sample != nil && (c.Idx%7 == 1 || len(r.vios) > 0) {
+			run.Sample(r.sample)
+		}
+	})
+	run.Extra("enumerated_cases", len(cases))
+	run.Extra("race_reports_touching_the_monitor_itself", c06HarnessRaces())
+	run.Floor("faults_delivered", len(cases)*6/10)
+	run.Floor("decided_with_fault_delivered", len(cases)/2)
+	for cl := range classes {
+		run.Floor("delivered_"+cl, 1)
+	}
+	if len(cases) >= 20 { // a full tier (not a C06_ONLY / -case selection)
+		run.Floor("owning_task_observed_paused", len(cases)/3)
+		run.Floor("probe_rows_written_after_pause", len(cases)/2)
+		run.Floor("sentinel_rounds_of_other_task_acknowledged", len(cases)/4)
+	}
 	return run
 }
